@@ -182,6 +182,118 @@ fn upload(budget: usize, token: &[u8], path: &[&str], extra: &[(u32, Vec<u8>)], 
     Ok(if renegotiated { "upload-renegotiated" } else { "upload-client-size-kept" })
 }
 
+/// One request shape: (token, extra options). The cache key (endpoint, method, path) does not depend on it.
+type Shape<'a> = (&'a [u8], &'a [(u32, Vec<u8>)]);
+
+/// An upload whose requests do not all look alike: the token and the Uri-Query differ from block to block
+/// (`pattern`), optionally after an abandoned upload on the same key whose requests had yet another shape. What the
+/// handler acknowledges for a block is judged against the overhead of *that* request, and the hypothetical next block
+/// of the same shape must fit; the real next block uses the largest size <= the acknowledged one that fits its own shape.
+#[allow(clippy::too_many_arguments)]
+fn upload_shapes(budget: usize, lean: Shape, fat: Shape, pattern: u8, pred: u8, client: u8, body_len: usize, rep: &mut Report) -> Result<&'static str, (String, String)> {
+    let the_body = body(body_len, 0x55);
+    let path: &[&str] = &["a"];
+    let mut srv = Server::new(budget, Duration::from_secs(3600));
+    clock::reset();
+    let app = move |_c: &AppCall| AppReply { code: 0x44, options: vec![], payload: vec![] };
+    let shape_of = |block: usize| -> Shape {
+        let f = match pattern {
+            0 => false,
+            1 => true,
+            2 => block >= 1,
+            3 => block == 0,
+            4 => block % 2 == 1,
+            5 => block % 2 == 0,
+            _ => block >= 2,
+        };
+        if f {
+            fat
+        } else {
+            lean
+        }
+    };
+    let mut mid = 300u16;
+    // ---- abandoned predecessor on the same key: 1 or 2 blocks of a lean or fat upload
+    if pred > 0 {
+        let (ptoken, pextra) = if pred == 3 { fat } else { lean };
+        let pbody = body(8 * rb::size(client), 0x21);
+        let blocks = if pred == 2 { 2 } else { 1 };
+        let mut szx = client;
+        let mut offset = 0usize;
+        for _ in 0..blocks {
+            let size = rb::size(szx);
+            let req = request_bytes(0, 3, mid, ptoken, path, pextra, Some(((offset / size) as u32, true, szx)), None, &pbody[offset..offset + size]);
+            mid += 1;
+            let x = srv.exchange(1, &req, &app);
+            offset += size;
+            if let Some((_, _, s2)) = x.reply.as_deref().and_then(parse_reply).and_then(|r| block_opt(&r, 27)) {
+                if s2 < szx {
+                    szx = s2;
+                }
+            }
+        }
+    }
+    mid = 700;
+    let mut offset = 0usize;
+    let mut szx = client;
+    let mut block = 0usize;
+    loop {
+        if block > 4000 {
+            return Err(("C10/upload-does-not-end".into(), "more than 4000 blocks".into()));
+        }
+        let (token, extra) = shape_of(block);
+        let ovh = |sz: u8, off: usize| request_bytes(0, 3, mid, token, path, extra, Some(((off / rb::size(sz)) as u32, true, sz)), None, &[]).len();
+        // the client shrinks its block until this request (with its own shape) fits the budget
+        while szx > 0 && ovh(szx, offset) + 1 + rb::size(szx).min(body_len - offset) > budget {
+            szx -= 1;
+        }
+        let size = rb::size(szx);
+        let end = (offset + size).min(body_len);
+        let more = end < body_len;
+        let num = (offset / size) as u32;
+        let req = request_bytes(0, 3, mid, token, path, extra, Some((num, more, szx)), None, &the_body[offset..end]);
+        let req_ovh = request_bytes(0, 3, mid, token, path, extra, Some((num, more, szx)), None, &[]).len();
+        if req.len() > budget {
+            return Err(("MACHINERY/c10-shape-request-too-large".into(), format!("harness built a request of {} bytes for budget {}", req.len(), budget)));
+        }
+        let x = srv.exchange(1, &req, &app);
+        rep.visit(&srv.snapshot());
+        mid += 1;
+        if let Some((stage, pn)) = &x.panic {
+            return Err((format!("C10/panic@{}", pn.site()), format!("{:?}: {}", stage, pn.message)));
+        }
+        let bytes = x.reply.clone().ok_or(("C10/no-reply".to_string(), "no reply".to_string()))?;
+        if let Some((stage, code, msg, _)) = &x.error {
+            return Err(("C10/handler-error-inside-domain".into(), format!("{:?}: {:?} {:?}", stage, code.map(refmodel::registries::dotted), msg)));
+        }
+        if bytes.len() > budget {
+            return Err(("C10/reply-exceeds-budget".into(), format!("reply of {} bytes to upload block {} exceeds the budget {}", bytes.len(), num, budget)));
+        }
+        let reply = parse_reply(&bytes).ok_or(("C10/undecodable-reply".to_string(), "reply does not parse".to_string()))?;
+        let (_, _, s2) = block_opt(&reply, 27).ok_or(("C10/block1-acknowledgement-missing".to_string(), format!("reply {} to a Block1 request carries no Block1 option", refmodel::registries::dotted(reply.code))))?;
+        check_size_choice(s2, Some(szx), req_ovh, budget)?;
+        offset = end;
+        block += 1;
+        if !more {
+            break;
+        }
+        // a next block that looks like the one just acknowledged, with the acknowledged size, must fit
+        let nsize = rb::size(s2);
+        let nend = (offset + nsize).min(body_len);
+        let next = request_bytes(0, 3, mid, token, path, extra, Some(((offset / nsize) as u32, nend < body_len, s2)), None, &the_body[offset..nend]);
+        if next.len() > budget {
+            return Err((
+                "C10/next-upload-block-exceeds-budget".into(),
+                format!("the server acknowledged block size {} for block {} (request overhead {}), but a next block of the same shape then encodes to {} bytes > budget {}", nsize, num, req_ovh, next.len(), budget),
+            ));
+        }
+        if s2 < szx {
+            szx = s2;
+        }
+    }
+    Ok("upload-changing-shape")
+}
+
 pub fn run(ctx: &Ctx, rep: &mut Report) {
     // ---- downloads
     {
@@ -353,6 +465,63 @@ pub fn run(ctx: &Ctx, rep: &mut Report) {
                 }
                 if ctx.want_sample(i, n) {
                     rep.sample(Json::obj().set("family", "uploads").set("index", i).set("case", case()));
+                }
+            },
+        );
+    }
+    // ---- uploads whose requests change shape (token, Uri-Query) between blocks / after an abandoned upload
+    {
+        let fat_extra: Vec<(u32, Vec<u8>)> = vec![(15, vec![b'q'; 30])];
+        let mid_extra: Vec<(u32, Vec<u8>)> = vec![(15, vec![b'k'; 13])];
+        let none: Vec<(u32, Vec<u8>)> = vec![];
+        let fat_token: [u8; 8] = [1, 2, 3, 4, 5, 6, 7, 8];
+        // (lean, fat) pairs: nothing vs token+query, nothing vs token only, 1-byte token vs 13-byte query
+        let pairs: Vec<(Shape, Shape)> = vec![((&[], &none), (&fat_token, &fat_extra)), ((&[], &none), (&fat_token, &none)), ((&fat_token[..1], &none), (&fat_token[..1], &mid_extra))];
+        let radices = [NBUDGETS, pairs.len() as u64, 7, 4, 7, 3];
+        let n = product(&radices);
+        ctx.family(
+            rep,
+            "uploads-changing-shape",
+            "budget (same selection, relative to the larger request overhead) x (lean, fat) request shapes {no token / 8-byte token + 30-byte Uri-Query, no token / 8-byte token, 1-byte token / + 13-byte Uri-Query} x which blocks are fat {none, all, all but the first, only the first, odd, even, from the third} x abandoned predecessor on the same key {none, 1 lean block, 2 lean blocks, 1 fat block} x client SZX 0..6 x body {1 block+1, 3 blocks+1, 6 blocks}: every acknowledgement judged against the overhead of the request it answers",
+            n,
+            true,
+            |i, rep| {
+                let d = decode(i, &radices);
+                let (lean, fat) = pairs[d[1] as usize];
+                let client = d[4] as u8;
+                let ovh = request_bytes(0, 3, 1, fat.0, &["a"], fat.1, Some((0, true, client)), None, &[]).len();
+                let budget = match budget_for(d[0], ovh) {
+                    Some(b) => b,
+                    None => {
+                        rep.count("skipped-budget-outside-[overhead+28,1280]");
+                        return;
+                    }
+                };
+                let s = rb::size(client);
+                let body_len = match d[5] {
+                    0 => s + 1,
+                    1 => 3 * s + 1,
+                    _ => 6 * s,
+                };
+                let case = || Json::obj().set("direction", "upload-changing-shape").set("budget", budget).set("fat_request_overhead", ovh).set("client_szx", client).set("body_len", body_len).set("shape_pair", d[1]).set("fat_block_pattern", d[2]).set("predecessor", d[3]);
+                let mut local = Report::new();
+                let r = mccore::guard(|| upload_shapes(budget, lean, fat, d[2] as u8, d[3] as u8, client, body_len, &mut local));
+                rep.transitions += local.transitions;
+                rep.traces_validated += local.traces_validated;
+                rep.state_set.extend(local.state_set);
+                match r {
+                    Err(pn) => rep.violation(viol("uploads-changing-shape", i, format!("MACHINERY-or-C10/harness-panic@{}", pn.site()), pn.message, case())),
+                    Ok(Ok(class)) => {
+                        rep.count(class);
+                        rep.bucket(&(class, client, d[5], d[2], d[3], d[1], ((budget - ovh) as f64).log2() as u32));
+                    }
+                    Ok(Err((sig, what))) => {
+                        rep.count("violation");
+                        rep.violation(viol("uploads-changing-shape", i, sig, what, case()));
+                    }
+                }
+                if ctx.want_sample(i, n) {
+                    rep.sample(Json::obj().set("family", "uploads-changing-shape").set("index", i).set("case", case()));
                 }
             },
         );
